@@ -454,10 +454,25 @@ func (t *Taint) analyse(fn *ssa.Function, params, free []PathSet, depth int) *TS
 			c.taint[fv] = free[i].Clone()
 		}
 	}
+	// when only successful returns matter, a store into a purely local variable made in a block
+	// from which no successful return is reachable cannot influence any result that counts
+	var okBlocks map[*ssa.BasicBlock]bool
+	if t.OkOnly && ErrIndex(fn) >= 0 {
+		okBlocks = t.flow.BlocksReachingOK(fn)
+	}
 	for iter := 0; iter < 40; iter++ {
 		c.ch = false
 		for _, b := range fn.Blocks {
 			for _, in := range b.Instrs {
+				if okBlocks != nil && !okBlocks[b] {
+					if st, ok := in.(*ssa.Store); ok {
+						if root, _ := valuePath(st.Addr); root != nil {
+							if a, ok := root.(*ssa.Alloc); ok && LocalOnlyAlloc(a) {
+								continue
+							}
+						}
+					}
+				}
 				t.step(c, in, depth, iter)
 			}
 		}
